@@ -73,6 +73,23 @@ func fragmentations(r *rng.R, k int, thorough bool) map[string][]int {
 		z := []int{0, k / 2, 0, 0, k - k/2, 0}
 		out["zero-length-reads-interleaved"] = z
 	}
+	if k >= 2 {
+		// runs of (0, nil) reads of several lengths at the start, in the middle, before the last byte
+		for _, z := range []int{1, 2, 3, 8, 32} {
+			var f []int
+			for i := 0; i < z; i++ {
+				f = append(f, 0)
+			}
+			f = append(f, k-1)
+			for i := 0; i < z; i++ {
+				f = append(f, 0)
+			}
+			f = append(f, 1)
+			if z == 3 || z == 32 || thorough {
+				out["zero-length-runs-"+itoa(z)] = f
+			}
+		}
+	}
 	nr := 1
 	if thorough {
 		nr = 4
